@@ -12,9 +12,12 @@ import (
 func Timeout(timeout time.Duration) func(message.HandlerFunc) message.HandlerFunc {
 	return func(h message.HandlerFunc) message.HandlerFunc {
 		return func(msg *message.Message) ([]*message.Message, error) {
-			ctx, cancel := context.WithTimeout(msg.Context(), timeout)
+			origCtx := msg.Context()
+			ctx, cancel := context.WithTimeout(origCtx, timeout)
 			defer func() {
 				cancel()
+				// the deadline applies to this call only, don't leave a cancelled context in the message
+				msg.SetContext(origCtx)
 			}()
 
 			msg.SetContext(ctx)
